@@ -219,9 +219,71 @@ RunHeartbeatTasks(c, t) ==
   CASE c.ph = "start" -> Yield(c, "beat", <<[k |-> "HeartbeatTasks", pid |-> c.a.pid, time |-> t]>>, t)
     [] c.ph = "beat" -> Reply(c, [status |-> OK, n |-> Rows(c, 1)])
 
+\* acquireLock.go, releaseLock.go, heartbeatLocks.go: one guarded command each
+RunAcquireLock(c, t) ==
+  LET a == c.a IN
+  CASE c.ph = "start" -> Yield([c EXCEPT !.ct = t], "acquire",
+                               <<[k |-> "AcquireLock", rid |-> a.rid, eid |-> a.eid, pid |-> a.pid, ttl |-> a.ttl, expiresAt |-> t + a.ttl]>>, t)
+    [] c.ph = "acquire" ->
+         IF Rows(c, 1) = 0 THEN Reply(c, [status |-> LOCK_ALREADY_ACQUIRED, lock |-> None])
+         ELSE Reply(c, [status |-> CREATED, lock |-> Some([rid |-> a.rid, eid |-> a.eid, pid |-> a.pid, ttl |-> a.ttl, expiresAt |-> c.ct + a.ttl])])
+RunReleaseLock(c, t) ==
+  CASE c.ph = "start" -> Yield(c, "release", <<[k |-> "ReleaseLock", rid |-> c.a.rid, eid |-> c.a.eid]>>, t)
+    [] c.ph = "release" -> Reply(c, [status |-> IF Rows(c, 1) = 0 THEN LOCK_NOT_FOUND ELSE NOCONTENT])
+RunHeartbeatLocks(c, t) ==
+  CASE c.ph = "start" -> Yield(c, "beat", <<[k |-> "HeartbeatLocks", pid |-> c.a.pid, time |-> t]>>, t)
+    [] c.ph = "beat" -> Reply(c, [status |-> OK, n |-> Rows(c, 1)])
+
+\* createSchedule.go, readSchedule.go, deleteSchedule.go
+ScheduleCmd(a, t) ==
+  [k |-> "CreateSchedule", id |-> a.id, desc |-> a.desc, cron |-> a.cron, tags |-> a.tags, promiseId |-> a.promiseId,
+   promiseTimeout |-> a.promiseTimeout, promiseParam |-> a.promiseParam, promiseTags |-> a.promiseTags,
+   next |-> CronNext(a.cron, t), ikey |-> a.ikey, createdOn |-> t]
+RunCreateSchedule(c, t) ==
+  LET a == c.a IN
+  CASE c.ph = "start" -> Yield(c, "read", <<[k |-> "ReadSchedule", id |-> a.id]>>, t)
+    [] c.ph = "read" ->
+         IF Rows(c, 1) = 0 THEN Yield([c EXCEPT !.ct = t], "insert", <<ScheduleCmd(a, t)>>, t)
+         ELSE LET s == Rec(c, 1) IN
+              Reply(c, [status |-> IF KeyMatch(s.ikey, a.ikey) THEN OK ELSE SCHEDULE_EXISTS, schedule |-> Some(s)])
+    [] c.ph = "insert" ->
+         IF Rows(c, 1) = 1
+         THEN LET k == ScheduleCmd(a, c.ct) IN
+              Reply(c, [status |-> CREATED,
+                        schedule |-> Some([id |-> a.id, desc |-> k.desc, cron |-> k.cron, tags |-> k.tags, promiseId |-> k.promiseId,
+                                           promiseTimeout |-> k.promiseTimeout, promiseParam |-> k.promiseParam, promiseTags |-> k.promiseTags,
+                                           last |-> None, next |-> k.next, ikey |-> k.ikey, createdOn |-> k.createdOn])])
+         ELSE Yield(c, "read", <<[k |-> "ReadSchedule", id |-> a.id]>>, t)
+RunReadSchedule(c, t) ==
+  CASE c.ph = "start" -> Yield(c, "read", <<[k |-> "ReadSchedule", id |-> c.a.id]>>, t)
+    [] c.ph = "read" -> IF Rows(c, 1) = 1 THEN Reply(c, [status |-> OK, schedule |-> Some(Rec(c, 1))])
+                        ELSE Reply(c, [status |-> SCHEDULE_NOT_FOUND, schedule |-> None])
+RunDeleteSchedule(c, t) ==
+  CASE c.ph = "start" -> Yield(c, "delete", <<[k |-> "DeleteSchedule", id |-> c.a.id]>>, t)
+    [] c.ph = "delete" -> Reply(c, [status |-> IF Rows(c, 1) = 1 THEN NOCONTENT ELSE SCHEDULE_NOT_FOUND])
+
 (***************************************************************************)
 (* The background coroutines.                                              *)
 (***************************************************************************)
+\* timeoutLocks.go: one command
+RunTimeoutLocks(c, t) ==
+  CASE c.ph = "start" -> Yield(c, "sweep", <<[k |-> "TimeoutLocks", time |-> t]>>, t)
+    [] c.ph = "sweep" -> Finish(c)
+\* schedulePromises.go: one read, then per due schedule one child (createPromise with the UpdateSchedule
+\* command appended): a router round trip, then one transaction; children are instances "ScheduleChild"
+RunSchedulePromises(c, t) ==
+  CASE c.ph = "start" -> Yield(c, "read", <<[k |-> "ReadSchedules", time |-> t, limit |-> 100]>>, t)
+    [] c.ph = "read" -> Finish(c)          \* the children are spawned by the Resume action
+RunScheduleChild(c, t) ==
+  LET s == c.p[1]
+      a == ScheduledPromiseArgs(s.id, s)
+      pc == PromiseCmd(a, c.ct)
+      cmd == IF Routed(a.tags) THEN [k |-> "CreatePromiseAndTask", promise |-> pc, task |-> InvokeTaskCmd(a, c.ct)] ELSE pc
+  IN
+  CASE c.ph = "start" -> YieldRouter(c, "route")
+    [] c.ph = "route" -> Yield(c, "fire", <<cmd, [k |-> "UpdateSchedule", id |-> s.id, last |-> Some(s.next), next |-> CronNext(s.cron, s.next)]>>, c.ct)
+    [] c.ph = "fire" -> Finish(c)
+
 RECURSIVE SetToSeq(_)
 SetToSeq(S) == IF S = {} THEN <<>> ELSE LET x == CHOOSE x \in S : TRUE IN <<x>> \o SetToSeq(S \ {x})
 
@@ -285,12 +347,21 @@ RunProgram(c, t) ==
     [] c.kind = "ClaimTask" -> RunClaimTask(c, t)
     [] c.kind = "CompleteTask" -> RunCompleteTask(c, t)
     [] c.kind = "HeartbeatTasks" -> RunHeartbeatTasks(c, t)
+    [] c.kind = "AcquireLock" -> RunAcquireLock(c, t)
+    [] c.kind = "ReleaseLock" -> RunReleaseLock(c, t)
+    [] c.kind = "HeartbeatLocks" -> RunHeartbeatLocks(c, t)
+    [] c.kind = "CreateSchedule" -> RunCreateSchedule(c, t)
+    [] c.kind = "ReadSchedule" -> RunReadSchedule(c, t)
+    [] c.kind = "DeleteSchedule" -> RunDeleteSchedule(c, t)
+    [] c.kind = "TimeoutLocks" -> RunTimeoutLocks(c, t)
+    [] c.kind = "SchedulePromises" -> RunSchedulePromises(c, t)
+    [] c.kind = "ScheduleChild" -> RunScheduleChild(c, t)
     [] c.kind = "TimeoutPromises" -> RunTimeoutPromises(c, t)
     [] c.kind = "TimeoutChild" -> RunTimeoutChild(c, t)
     [] c.kind = "TimeoutTasks" -> RunTimeoutTasks(c, t)
     [] c.kind = "EnqueueTasks" -> RunEnqueueTasks(c, t)
 Run(c, t) ==
-  IF c.err THEN (IF c.kind \in {"TimeoutPromises", "TimeoutChild", "TimeoutTasks", "EnqueueTasks"} THEN Finish(c)
+  IF c.err THEN (IF c.kind \in {"TimeoutPromises", "TimeoutChild", "TimeoutTasks", "EnqueueTasks", "TimeoutLocks", "SchedulePromises", "ScheduleChild"} THEN Finish(c)
                  ELSE Reply(c, [status |-> STORE_ERROR]))
   ELSE RunProgram(c, t)
 
@@ -302,6 +373,8 @@ Run(c, t) ==
 ResultOf(S, cmd) ==
   CASE cmd.k = "ReadPromises" ->
          LET ids == SetToSeq(DuePromises(S, cmd.time)) IN [rows |-> Len(ids), recs |-> [i \in DOMAIN ids |-> WithId(ids[i], S.promises[ids[i]])]]
+    [] cmd.k = "ReadSchedules" ->
+         LET ids == SetToSeq(DueSchedules(S, cmd.time)) IN [rows |-> Len(ids), recs |-> [i \in DOMAIN ids |-> WithId(ids[i], S.schedules[ids[i]])]]
     [] cmd.k = "ReadTasks" ->
          LET ids == SetToSeq(ExpirableTasks(S, cmd.states, cmd.time)) IN [rows |-> Len(ids), recs |-> [i \in DOMAIN ids |-> WithId(ids[i], S.tasks[ids[i]])]]
     [] cmd.k = "ReadEnqueueableTasks" ->
@@ -311,13 +384,14 @@ ResultOf(S, cmd) ==
     [] OTHER -> Res(S, cmd)
 RECURSIVE TxResults(_, _)
 TxResults(S, cmds) == IF cmds = <<>> THEN <<>> ELSE <<ResultOf(S, Head(cmds))>> \o TxResults(Apply(S, Head(cmds)), Tail(cmds))
-IsReadOnly(cmds) == \A i \in DOMAIN cmds : cmds[i].k \in {"ReadPromise", "ReadTask", "ReadPromises", "ReadTasks", "ReadEnqueueableTasks"}
+IsReadOnly(cmds) == \A i \in DOMAIN cmds : cmds[i].k \in {"ReadPromise", "ReadTask", "ReadPromises", "ReadTasks", "ReadEnqueueableTasks", "ReadSchedule", "ReadSchedules", "ReadLock"}
 
 (***************************************************************************)
 (* Level A's demands on one commit / one reply.                            *)
 (***************************************************************************)
 RequestKinds == {"ReadPromise", "CreatePromise", "CreatePromiseAndTask", "CompletePromise", "CreateCallback", "CreateSubscription",
-                 "ClaimTask", "CompleteTask", "HeartbeatTasks"}
+                 "ClaimTask", "CompleteTask", "HeartbeatTasks", "AcquireLock", "ReleaseLock", "HeartbeatLocks",
+                 "CreateSchedule", "ReadSchedule", "DeleteSchedule"}
 OpAt(c, S) == IF c.kind = "CreatePromiseAndTask" THEN OpCreatePromiseAndTask2(S, c.a, c.dt, c.t0) ELSE Op(c.kind, S, c.a, c.dt)
 
 \* F14: a completion that lost the race (UpdatePromise affects no row) still completes the tasks
@@ -334,6 +408,12 @@ CommitAllowed(c, S, S2) ==
   \/ S2 = S
   \/ c.kind \in RequestKinds /\ SameAs(c, S2, OpAt(c, S).db)
   \/ c.kind = "TimeoutChild" /\ S2 = TimeoutP(S, c.p[1].id, c.dt)
+  \/ c.kind = "TimeoutLocks" /\ S2 = SweepLocks(S, c.dt)
+  \* a schedule fires: its promise (unless it exists) and the advance in one step; when the schedule was deleted or
+  \* re-created meanwhile the advance is refused and only the promise is created (an "orphan firing", accepted)
+  \/ c.kind = "ScheduleChild" /\ (\/ (CanFire(S, c.p[1].id, c.dt) /\ S.schedules[c.p[1].id] = [x \in DOMAIN S.schedules[c.p[1].id] |-> c.p[1][x]]
+                                       /\ S2 = Fire(S, c.p[1].id, c.dt))
+                                    \/ (Res(S, c.tx[2]).rows = 0 /\ S2 = Apply(S, c.tx[1])))
   \/ c.kind \in {"TimeoutTasks", "EnqueueTasks"}          \* judged by the step properties of Props.tla
   \/ "F14" \in Known /\ IsF14(S, c.tx)
 
@@ -400,7 +480,7 @@ Commit(id) ==
                                            !.eff = IF isEffect THEN Some(Core(c, OpAt(c, db).res)) ELSE @]]
      /\ last' = [e |-> "commit", c |-> id, ok |-> CommitAllowed(c, db, S2),
                  f14 |-> IsF14(db, c.tx) /\ S2 # db]
-  /\ Note([e |-> "commit", c |-> id, p |-> IF co[id].kind = "TimeoutChild" THEN co[id].p[1].id ELSE ""])
+  /\ Note([e |-> "commit", c |-> id, p |-> IF co[id].kind \in {"TimeoutChild", "ScheduleChild"} THEN co[id].p[1].id ELSE ""])
   /\ UNCHANGED <<now, started, nsweeps, sel>>
 
 \* the router answers (routing itself is C19's business: here it follows the tag)
@@ -423,8 +503,9 @@ Send(id, outcomes) ==
 Resume(id) ==
   /\ id \in DOMAIN co /\ co[id].ready
   /\ LET c == Run(co[id], now)
-         kids == IF co[id].kind = "TimeoutPromises" /\ co[id].ph = "read" THEN co[id].res[1].recs ELSE <<>>
-         kid(i) == Run([NoCo EXCEPT !.own = id, !.kind = "TimeoutChild", !.ph = "start", !.p = <<kids[i]>>], now)
+         kids == IF co[id].kind \in {"TimeoutPromises", "SchedulePromises"} /\ co[id].ph = "read" /\ ~ co[id].err THEN co[id].res[1].recs ELSE <<>>
+         kid(i) == Run([NoCo EXCEPT !.own = id, !.kind = IF co[id].kind = "TimeoutPromises" THEN "TimeoutChild" ELSE "ScheduleChild",
+                                    !.ph = "start", !.p = <<kids[i]>>, !.ct = now], now)
      IN co' = [x \in (DOMAIN co) \cup {id \o "." \o kids[i].id : i \in DOMAIN kids} |->
                  IF x = id THEN c
                  ELSE IF x \in DOMAIN co THEN co[x]
@@ -451,6 +532,9 @@ I_ReplyLinearizable == last.e \in {"start", "resume"} => last.rok
 Quiescent == \A id \in DOMAIN co : co[id].ph = "done"
 AllStarted == \A i \in DOMAIN Script : Rid(i) \in sel => i \in started
 TypeOK == WellFormed(db)
+\* reachability probes (expected to be VIOLATED: used to see that a scenario exercises what it is for)
+Probe_ScheduleFired == ~ \E id \in DOMAIN co : co[id].kind = "ScheduleChild" /\ co[id].ph = "done" /\ DOMAIN db.promises # {}
+Probe_LockSwept == ~ (last.e = "commit" /\ \E id \in DOMAIN co : co[id].kind = "TimeoutLocks" /\ co[id].ph = "sweep" /\ co[id].ready /\ co[id].res[1].rows > 0)
 View == <<db, now, co, started, nsweeps, last, sel>>
 
 \* the step properties of Props.tla, for every commit of every coroutine
@@ -461,4 +545,6 @@ A_C05 == [][/\ C05_NoOrphanRegistration(db') /\ C05_RegistrationsConverted(db, d
 A_C07 == [][/\ C07_CountersNeverDecrease(db, db') /\ C07_FinishedIsAbsorbing(db, db') /\ C07_TasksNeverDisappear(db, db')
             /\ C07_ClaimGuard(db, db') /\ C07_FencingOnReclaim(db, db')]_db
 A_C08 == [][C08_RoutedHasTask(db, db') /\ C08_FinishedWithPromise(db, db')]_db
+A_C09 == [][C09_NoTransferInPlace(db, db')]_db
+A_C10 == [][C10_AdvancesByOne(db, db') /\ C10_NotEarly(db, db', now) /\ C10_FiringCreatesPromise(db, db')]_db
 =============================================================================
